@@ -19,7 +19,11 @@
  *        kinds: g genuine | e genuine with Echo = the server's current echo_value |
  *               x genuine with a wrong Echo | f genuine with the last tag byte flipped |
  *               F protected under another master secret | P Partial IV bytes of a genuine
- *               message overwritten with <hexseq> | K genuine with the kid changed (no security
+ *               message overwritten with <hexseq> | S<hexseq>.<len> genuine with the ciphertext
+ *               cut to <len> bytes (shorter than, equal to, longer than the tag; 0: no payload)
+ *               | M payload marker with nothing behind it | A<hexseq>.<k> tag flipped and the
+ *               k-th memory allocation during its processing fails (verdict printed as *)
+ *               | K genuine with the kid changed (no security
  *               context) | O genuine with a reserved flag bit set in the OSCORE option
  *        A token that occurred earlier in the same case re-delivers the very same datagram (a
  *        replay on the wire).
@@ -84,6 +88,15 @@ ssize_t __wrap_coap_socket_send(coap_socket_t *sock, coap_session_t *session,
     ncap++;
   }
   return (ssize_t)datalen;
+}
+
+/* ------------------------------------------------------------------ allocation failures */
+/* fail_alloc_at = k > 0: the k-th coap_malloc_type() from now on returns NULL (once) */
+static int fail_alloc_at, alloc_count;
+void *__real_coap_malloc_type(coap_memory_tag_t type, size_t size);
+void *__wrap_coap_malloc_type(coap_memory_tag_t type, size_t size) {
+  if (fail_alloc_at > 0 && ++alloc_count == fail_alloc_at) return NULL;
+  return __real_coap_malloc_type(type, size);
 }
 
 /* ------------------------------------------------------------------ contexts */
@@ -267,6 +280,27 @@ static uint8_t *find_oscore_opt(uint8_t *dg, size_t n, size_t *vlen) {
   return NULL;
 }
 
+/* "<kind><hexseq>[.<len>]" -> the number after the dot (dflt when absent) */
+static int tok_len_suffix(const char *t, int dflt) {
+  const char *d = strchr(t, '.');
+  return d ? atoi(d + 1) : dflt;
+}
+
+/* S: cut the protected payload of a genuine datagram down to slen bytes (slen 0: no payload and
+ * no marker); M: payload marker with nothing behind it.  OSCORE is the only outer option here,
+ * so the marker follows its value. */
+static size_t cut_payload(uint8_t *dg, size_t n, char kind, int slen) {
+  size_t vl, idx;
+  uint8_t *ov = find_oscore_opt(dg, n, &vl);
+  if (!ov) return 0;
+  idx = (size_t)(ov - dg) + vl;
+  if (idx >= n || dg[idx] != 0xff) return 0;
+  if (kind == 'M') return idx + 1;
+  if (slen <= 0) return idx;
+  if (idx + 1 + (size_t)slen > n) return 0;
+  return idx + 1 + (size_t)slen;
+}
+
 static int seq_len(uint64_t v) {
   int n = 1;
   while (v >>= 8) n++;
@@ -381,7 +415,15 @@ static void cmd_rpd(void) {
       printf("NOGEN");
       continue;
     }
-    if (kind == 'f') dg[n - 1] ^= 0x01;
+    if (kind == 'f' || kind == 'A') dg[n - 1] ^= 0x01;
+    if (kind == 'S' || kind == 'M') {
+      n = cut_payload(dg, n, kind, tok_len_suffix(mt, 1));
+      if (!n) {
+        if (i > 5) putchar(' ');
+        printf("NOGEN");
+        continue;
+      }
+    }
     if (kind == 'K' || kind == 'O') {
       size_t vl;
       uint8_t *ov = find_oscore_opt(dg, n, &vl);
@@ -411,10 +453,19 @@ static void cmd_rpd(void) {
 deliver:
     ncap = 0;
     before = handler_calls;
+    /* A<seq>.<k>: a message that fails authentication, and the k-th allocation made while it
+     * is processed fails */
+    alloc_count = 0;
+    fail_alloc_at = kind == 'A' ? tok_len_suffix(mt, 1) : 0;
     coap_lock_lock(sctx, goto done);
     coap_handle_dgram(sctx, ssess, dg, n);
     coap_lock_unlock(sctx);
+    fail_alloc_at = 0;
     classify(verdict, sizeof(verdict), before);
+    if (kind == 'A') strcpy(verdict, handler_calls > before ? "A" : "*");
+    /* no payload / marker only: dropped before any security context is looked at, no reply */
+    if ((kind == 'M' || (kind == 'S' && tok_len_suffix(mt, 1) == 0)) && !strcmp(verdict, "E"))
+      strcpy(verdict, "N");
     if (i > 5) putchar(' ');
     printf("%s,%" PRIx64 ",%" PRIx64 ",%d/%" PRIx64 ",%" PRIx64 ",%d", verdict, rcp->last_seq,
            rcp->sliding_window, rcp->initial_state, rcp2->last_seq, rcp2->sliding_window,
@@ -616,14 +667,25 @@ static void cmd_rpe(void) {
     /* an attacker puts recorded datagrams on the wire again (replay & 1: all of them after
      * every request; replay & 2: each of them with the last byte of the tag flipped first) */
     for (int k = 0; k < nrec && replay; k++) {
-      for (int pass = 0; pass < 2; pass++) {
-        if (!(replay & (pass ? 1 : 2))) continue;
+      for (int pass = 0; pass < 3; pass++) {
+        /* pass 0: last byte changed (f); pass 1: ciphertext cut to 1..10 bytes (t); pass 2: as is (r) */
+        if (!(replay & (pass == 0 ? 2 : pass == 1 ? 4 : 1))) continue;
         ncap = 1;
         memcpy(cap_buf[0], rec_buf[k], rec_len[k]);
         cap_len[0] = rec_len[k];
         cap_sess[0] = c.sess;
-        if (!pass) cap_buf[0][cap_len[0] - 1] ^= 0x80;
-        if (!pump(0, pass ? 'r' : 'f')) goto done;
+        if (pass == 0) cap_buf[0][cap_len[0] - 1] ^= 0x80;
+        if (pass == 1) {
+          size_t nn = cut_payload(cap_buf[0], cap_len[0], 'S', 1 + (k + q) % 10), vl;
+          uint8_t *ov = find_oscore_opt(cap_buf[0], cap_len[0], &vl);
+          uint64_t claim = rcp->last_seq + 2 + (uint64_t)k;       /* a number not seen yet */
+          if (!nn || !ov) continue;
+          cap_len[0] = nn;
+          if ((ov[0] & 7) == seq_len(claim))
+            for (int b = 0; b < (ov[0] & 7); b++)
+              ov[1 + b] = (uint8_t)(claim >> (8 * ((ov[0] & 7) - 1 - b)));
+        }
+        if (!pump(0, pass == 0 ? 'f' : pass == 1 ? 't' : 'r')) goto done;
       }
     }
   }
@@ -646,7 +708,8 @@ done:
  *     N<hexseq>   B notifies its observers (coap_resource_notify_observers + coap_check_notify),
  *                 Partial IV <hexseq>; a repeated token re-delivers the same datagram
  *     T<hexseq>   such a notification with the last byte changed
- *     R<hexseq>   made-up response: A's outstanding token, claimed Partial IV, random ciphertext
+ *     R<hexseq>[.<len>]  made-up response: A's outstanding token, claimed Partial IV, random
+ *                 ciphertext of <len> bytes (default 13)
  *     Z<hexseq>   made-up response with a token A never used
  *     W<hexseq>   made-up response with A's outstanding token and no Partial IV (it is bound to
  *                 the request's nonce; <hexseq> only varies the bytes)
@@ -746,7 +809,7 @@ static void cmd_rpx(void) {
       if (!strcmp(vtok[j], vtok[i]) && msg_len[j - 4] && kind == 'N') { prev = j - 4; break; }
     if (i - 4 < MAXMSG) msg_len[i - 4] = 0;
     ncap = 0;
-    if (strchr("gexfPKO", kind)) {
+    if (strchr("gexfPKOSM", kind)) {
       uint8_t echo[8];
       uint64_t gen_seq = seq;
       memcpy(echo, rc->echo_value, 8);
@@ -760,6 +823,7 @@ static void cmd_rpx(void) {
         uint8_t *ov = find_oscore_opt(dg, n, &vl);
         int pl = seq_len(seq);
         if (kind == 'f') dg[n - 1] ^= 0x01;
+        else if (kind == 'S' || kind == 'M') n = cut_payload(dg, n, kind, tok_len_suffix(vtok[i], 1));
         else if (!ov || vl < 2) n = 0;
         else if (kind == 'K') ov[vl - 1] ^= 0x55;
         else if (kind == 'O') ov[0] |= 0x40;
@@ -771,6 +835,8 @@ static void cmd_rpx(void) {
       coap_handle_dgram(a.ctx, a_in, dg, n);
       coap_lock_unlock(a.ctx);
       classify(verdict, sizeof(verdict), before);
+      if ((kind == 'M' || (kind == 'S' && tok_len_suffix(vtok[i], 1) == 0)) && !strcmp(verdict, "E"))
+        strcpy(verdict, "N");
     } else if (kind == 'q') {
       /* A registers as an observer of B's /o; B's answer carries the Partial IV <seq> */
       coap_pdu_t *pdu = coap_new_pdu(COAP_MESSAGE_NON, COAP_REQUEST_CODE_GET, a.sess);
@@ -838,7 +904,11 @@ static void cmd_rpx(void) {
         for (int k = 0; k < pl; k++) dg[n++] = (uint8_t)(seq >> (8 * (pl - 1 - k)));
       }
       dg[n++] = 0xff;
-      for (int k = 0; k < 13; k++) dg[n++] = (uint8_t)(0xa0 + k + i + (int)seq);
+      {
+        int cl = tok_len_suffix(vtok[i], 13);           /* R<seq>.<len>: ciphertext length */
+        if (cl < 1) cl = 1;
+        for (int k = 0; k < cl && n < sizeof(dg); k++) dg[n++] = (uint8_t)(0xa0 + k + i + (int)seq);
+      }
     } else {
       printf("%sNOGEN", i > 4 ? " " : "");
       continue;
